@@ -28,7 +28,9 @@ ScenarioKinds == Listed \ ShownKinds
 Shape(c, vis, f) == [c |-> c, vis |-> vis, f |-> f]
 FunFeatureSets(tier) ==
   { {}, {"pmiss"}, {"rmiss"}, {"tuple"}, {"set"}, {"listmulti"}, {"set", "setmulti"}, {"variadic"}, {"optposonly"}, {"reqkwonly"},
-    {"unknownvalue"} }
+    {"unknownvalue"},
+    {"@kwnone"},                     \* a keyword-only parameter whose default is None: optional, so no marker
+    {"optposonly", "@posnone"} }     \* a position-only parameter whose default is None: optional, so the marker
   \cup (IF tier = "quick" THEN {} ELSE { {"pmiss", "tuple", "variadic"}, {"rmiss", "reqkwonly"}, {"optposonly", "unknownvalue", "set"} })
 FunShapes(tier) == { Shape("fun", TRUE, f) : f \in FunFeatureSets(tier) } \cup { Shape("fun", FALSE, {"pmiss", "variadic", "tuple"}) }
 MethodShapes(tier) ==
